@@ -10,6 +10,7 @@ PROFILE = {
     "spread": 0.015,
     "dts": [7, 30, 60, 61, 97, 120, 300],
     "timeouts": [60, 600],
+    "detached_base_station": 0.3,
 }
 
 
@@ -21,6 +22,11 @@ def build_cases(tier, seed):
         prof = dict(PROFILE)
         prof["network"] = ["euclidean", "euclidean", "grid", "grid", "euclidean", "denver"][i % 6]
         ctrl = hostile_stack(p=[0.2, 0.35][i % 2], builtin=(i % 3 != 2))
+        if i % 6 == 3:
+            # short steps, driveways and split junctions (links of less than a second), many trips, and a client that tells every
+            # vehicle carrying passengers to stop, every step: the trip must go on to the destination all the same
+            prof.update({"dts": [5, 7, 10], "grid": {"spurs": 0.6, "stubs": 0.3, "speeds": ["uniform", "varied", "mixed"][(i // 6) % 3]}, "n_requests": (150, 260), "n_vehicles": (6, 12), "soc": [0.6, 0.9], "timeouts": [600], "p_ice": 0.0})
+            ctrl = {"stack": ["Dispatcher", "ChargingFleetManager", {"interrupt": {"states": ["ServicingTrip"], "p": 1.0, "kinds": ["Idle", "Idle", "DispatchStation", "DispatchBase", "Reposition"]}}]}
         cases.append(trace_case("C07", i, s, prof, ctrl, steps, ["C07"], opts=({"inject_requests": {"every": 6, "public": i % 10 == 7}} if i % 5 == 2 else {})))
     cases += systematic_cases("C07", tier, seed)
     if tier == "thorough":
@@ -30,8 +36,8 @@ def build_cases(tier, seed):
 
 
 FLOORS = {
-    "quick": {"c07_stationary_checks": 10000, "c07_route_checks": 10000, "c07_pickups": 200, "c07_dropoffs": 200, "c07_reposition_checks": 100, "sys_transitions": 20000, "sys_states": 3000},
-    "thorough": {"c07_stationary_checks": 300000, "c07_route_checks": 300000, "c07_pickups": 5000, "c07_dropoffs": 5000, "c07_reposition_checks": 3000, "sys_transitions": 500000, "sys_states": 50000},
+    "quick": {"c07_stationary_checks": 10000, "c07_route_checks": 10000, "c07_pickups": 200, "c07_dropoffs": 200, "c07_reposition_checks": 100, "c07_trips_ended": 200, "c07_servicing_steps_with_at_most_two_links_left": 100, "sys_transitions": 20000, "sys_states": 3000},
+    "thorough": {"c07_stationary_checks": 300000, "c07_route_checks": 300000, "c07_pickups": 5000, "c07_dropoffs": 5000, "c07_reposition_checks": 3000, "c07_trips_ended": 5000, "c07_servicing_steps_with_at_most_two_links_left": 2000, "sys_transitions": 500000, "sys_states": 50000},
 }
 
 
